@@ -211,6 +211,23 @@ def run_user(case, workdir, rec):
                     shutil.rmtree(out, ignore_errors=True)
                 if len(digests) > 1:
                     rec.fail("schedule_dependent", {"recipe": rname, "kept": kept}, "%d distinct output trees over schedules" % len(digests))
+    # the command line entry point (always parallel) must write what the API writes
+    import amr_kitchen.chef.cli as ccli
+    from ..common import run_cli
+    for rname, kept in (("R1", None), ("R3", "Z temp")):
+        out = os.path.join(workdir, "ck_cli")
+        out2 = os.path.join(workdir, "ck_api")
+        argv = ["chef", path, "-r", os.path.join(workdir, rname + ".py"), "-o", out] + (["-k", kept] if kept else [])
+        with vpool.controlled():
+            st, val = run_cli(ccli.main, argv)
+            st2, val2 = call(lambda: Chef(path, recipe=os.path.join(workdir, rname + ".py"), outfile=out2, serial=True, kept_fields=kept).cook())
+        rec.exe([dh, "cli", rname, kept], nontrivial=True)
+        if st != "ok":
+            rec.fail("cli_failed", {"argv": argv}, "%s %s" % (st, val))
+        elif st2 == "ok" and tree_digest(out) != tree_digest(out2):
+            rec.fail("cli_differs_from_api", {"argv": argv}, "the chef command wrote another tree than Chef(...).cook()")
+        shutil.rmtree(out, ignore_errors=True)
+        shutil.rmtree(out2, ignore_errors=True)
     # history on ONE Chef object: cooking twice must give the same output tree
     for serial in (True, False):
         out = os.path.join(workdir, "ck_twice")
@@ -359,6 +376,22 @@ def run_cantera(case, workdir, rec):
         if pp is not None:
             check_components(rec, sub, pp, ref, names, expect, new_names, kept_names, undefined=undefined, rtol=1e-12)
         shutil.rmtree(out, ignore_errors=True)
+    # command line form of the same cook
+    import amr_kitchen.chef.cli as ccli
+    from ..common import run_cli
+    out = os.path.join(workdir, "ck_cli")
+    argv = ["chef", path, "-r", recipe, "-o", out, "-m", MECH, "-p", str(case["pressure"])] + (["-k", kept] if kept else []) \
+        + (["-s"] + kw["species"] if "species" in kw else []) + (["-R"] + [str(i) for i in kw["reactions"]] if "reactions" in kw else [])
+    with vpool.controlled():
+        st, val = run_cli(ccli.main, argv)
+    rec.exe([dh, "cli"], nontrivial=True)
+    if st != "ok":
+        rec.fail("cli_failed", {"argv": argv}, "%s %s" % (st, val))
+    else:
+        pp = common_output_checks(rec, {"argv": argv}, out, ref)
+        if pp is not None:
+            check_components(rec, {"argv": argv}, pp, ref, names, expect, new_names, kept_names, undefined=undefined, rtol=1e-12)
+    shutil.rmtree(out, ignore_errors=True)
     if tree_digest(path) != before:
         rec.fail("input_modified", {}, "")
     rec.sample({"template": "drm19 (24 fields, boxes 4x2x2 / 2x2x2 / 4x4x4)", "recipe": rname, "kept": kept, "pressure_atm": case["pressure"]})
